@@ -176,7 +176,9 @@ func (o *Array) BinaryOp(op token.Token, rhs Object) (Object, error) {
 			if len(rhs.Value) == 0 {
 				return o, nil
 			}
-			return &Array{Value: append(o.Value, rhs.Value...)}, nil
+			elems := make([]Object, 0, len(o.Value)+len(rhs.Value))
+			elems = append(elems, o.Value...)
+			return &Array{Value: append(elems, rhs.Value...)}, nil
 		}
 	}
 	return nil, ErrInvalidOperator
